@@ -2,7 +2,7 @@
    `exact <lemma>` and followed by Print Assumptions (audited by ./check on every run). *)
 From V.lib Require Import Base.
 From V.c14 Require Import C14Spec C14Model C14WordProofs C14ScanProofs C14ConvProofs C14WalkProofs C14StreamProofs.
-From V.c14 Require Import C14HevcSpec C14HevcModel C14HevcPackProofs C14HevcProofs.
+From V.c14 Require Import C14HevcSpec C14HevcModel C14HevcPackProofs C14HevcProofs C14AvcModel C14AvcProofs.
 
 (* the word bit-trick of hasZeroByte is exactly "some byte of the word is zero", for every 8-byte
    word, whichever byte order the load uses *)
@@ -254,3 +254,28 @@ Example C14_helpers_hevc_units_ex :
   hevc_ExtractNalusOfTypeFromByteStream 34 (stream us) false = Ok [[68;1;193]; [68;1;200]]%N /\
   hevc_ExtractNalusOfTypeFromByteStream 34 (stream us) true = Ok [[68;1;193]]%N.
 Proof. vm_compute. repeat split; reflexivity. Qed.
+
+(* ------------------------------------------------------------------ avc.GetParameterSetsFromByteStream to its end *)
+(* C14AvcModel.v transcribes the function including totSize and the repacking into psData (this is the model
+   the correspondence runs against avc.GetParameterSetsFromByteStream); on EVERY input it returns the sets of
+   the shorter transcription, which has no VPS list *)
+Theorem C14_avc_gpsb_full : forall s : list N,
+  avc_get_parameter_sets_from_byte_stream s
+  = (do a <- avc_GetParameterSetsFromByteStream s; Ok ([], fst a, snd a)).
+Proof. exact avc_gpsb_full. Qed.
+Print Assumptions C14_avc_gpsb_full.
+
+Theorem C14_avc_gpsb_stream : forall us : list (bool * list N), wf_units us = true ->
+  avc_GetParameterSetsFromByteStream (stream us)
+  = Ok (of_type avc_type 7 (before_video avc_type avc_is_video (map snd us)),
+        of_type avc_type 8 (before_video avc_type avc_is_video (map snd us))).
+Proof. exact avc_gpsb_full_stream. Qed.
+Print Assumptions C14_avc_gpsb_stream.
+
+(* AUD, SPS, PPS, a second PPS, IDR slice, a PPS behind the video unit *)
+Example C14_avc_gpsb_ex :
+  let us := [(true, [9;16]); (true, [103;66;0;30]); (false, [104;206;60;128]); (false, [104;1]);
+             (true, [101;136;132]); (false, [104;2])]%N in
+  wf_units us = true /\
+  avc_GetParameterSetsFromByteStream (stream us) = Ok ([[103;66;0;30]], [[104;206;60;128]; [104;1]])%N.
+Proof. vm_compute. split; reflexivity. Qed.
